@@ -70,7 +70,7 @@ def nontrivial_key(case_line, obs):
     i = case_line.index("(tmpl ")
     return hash(case_line[i:])
 
-QUIRKS = ["lit_eof", "stale_ctx", "recover_scope", "memo_nocharge"]
+QUIRKS = ["lit_eof", "stale_ctx", "recover_scope", "memo_nocharge", "memo_label", "lr_memo_state"]
 
 def quirk_bits(off=None):
     off = off or ()
@@ -142,7 +142,7 @@ def default_scope(case_line):
     return True
 
 def run_corr(ctx, rep, profiles, fields, oracle=None, classify=None, timeout_ms=4000,
-             ref_fields=None, scope=default_scope, known_quirks=None, derive=None):
+             ref_fields=None, scope=default_scope, known_quirks=None, derive=None, spec_flag="-ref", spec_name="Ref", ref_skip=None):
     """profiles: list of (profile name, n_quick, n_thorough).
     fields: observables on which the model (faithful quirks) and the implementation must agree.
     ref_fields: observables on which the implementation must agree with the specification Ref
@@ -174,6 +174,7 @@ def run_corr(ctx, rep, profiles, fields, oracle=None, classify=None, timeout_ms=
         if slow:
             impl.update(corr.run_impl(ctx.sc, hosts, slow, 700))
         by_id = {corr.case_id(l): l for l in lines}
+        rep.impl_live = impl          # for classify functions that look at twins of a case
         all_impl.update(impl)
         all_lines.update(by_id)
         total += len(lines)
@@ -194,8 +195,13 @@ def run_corr(ctx, rep, profiles, fields, oracle=None, classify=None, timeout_ms=
         ref, inscope, bad_ref = {}, [], set()
         if ref_fields:
             inscope = [l for l in lines if scope(l)]
-            ref = corr.run_model(ctx.sc, driver, tables, inscope, extra="-ref", tag="ref")
+            ref = corr.run_model(ctx.sc, driver, tables, inscope, extra=spec_flag, tag="ref")
+            rep.spec_live = ref
             dist["compared_with_Ref"] += len(inscope)
+            if ref_skip:
+                keep = [l for l in inscope if not ref_skip(l, impl.get(corr.case_id(l), {}), ref.get(corr.case_id(l), {}))]
+                dist["outside_the_specification (skipped)"] += len(inscope) - len(keep)
+                inscope = keep
             bad_ref = {corr.case_id(l) for l in inscope
                        if not same_on(ref_fields, impl.get(corr.case_id(l), {}), ref.get(corr.case_id(l), {}))}
         # (1) correspondence model(faithful) <-> implementation on the projected fields
@@ -237,6 +243,9 @@ def run_corr(ctx, rep, profiles, fields, oracle=None, classify=None, timeout_ms=
                 if q and all(x in known_quirks for x in q):
                     for x in q:
                         known_hits[known_quirks[x]] += 1
+                    if not hasattr(rep, "attributed_cases"):
+                        rep.attributed_cases = set()
+                    rep.attributed_cases.add(cid)
                     continue
                 q2 = classify(l, i, model.get(cid, {}), "implementation/specification disagree on %s" % f) if classify else None
                 if q2:
